@@ -11,6 +11,9 @@
 (*        ACK the step delivered, counted as lost, space/0-RTT discarded)  *)
 (*   Recovery!Track gate  non-exempt ack-eliciting packets fit the window  *)
 (*   NoSpuriousLoss  nothing is declared lost on a clean path              *)
+(*   AckElicitingPacketNotTracked  every packet the wire decoder finds     *)
+(*        ack-eliciting is outstanding afterwards, as ack-eliciting and    *)
+(*        with its size                                                    *)
 (***************************************************************************)
 EXTENDS Naturals, Integers, Sequences, FiniteSets, TLC, Json, IOUtils
 
@@ -67,6 +70,11 @@ Step ==
           \cup Flag(zeroRttGone \/ Cardinality(unexplained) <= e.dlost, "PacketVanishedWithoutFate")
           \cup Flag(e.kind \in {"Rx", "Timeout", "Tx"} \/ Len(e.left) = 0, "PacketLeftDuringApplicationCall")
           \cup Flag(gate[1], "SentBeyondCongestionWindow")
+          \* what the independent decoder finds ack-eliciting on the wire is held as outstanding,
+          \* ack-eliciting, with its size (the window check rests on these records)
+          \* (a space discarded in the same step takes its last packet with it)
+          \cup Flag(\A i \in DOMAIN e.untracked : \E j \in DOMAIN e.disc : e.disc[j] = e.untracked[i],
+                    "AckElicitingPacketNotTracked")
           \cup Flag(clean => (e.lost = 0 /\ e.cev = 0), "LossDeclaredOnCleanPath")
   /\ l' = l + 1 /\ UNCHANGED <<clean, cur>>
 
